@@ -13,7 +13,10 @@ def modelled : List String := [
   "babyjub.Point.Mul",
   "babyjub.Point.Set",
   "babyjub.Signature.Decompress",
-  "babyjub.SignatureComp.Decompress"
+  "babyjub.SignatureComp.Decompress",
+  "babyjub.<decls>@babyjub.go",
+  "babyjub.<decls>@eddsa.go",
+  "babyjub.<decls>@helpers.go"
 ]
 
 theorem source_pinned : modelled.all (same I3.Gen.fingerprints) = true := by decide +kernel
@@ -21,6 +24,6 @@ theorem source_pinned : modelled.all (same I3.Gen.fingerprints) = true := by dec
 theorem function_set_pinned : (["babyjub."] : List String).all (sameKeys I3.Gen.fingerprints) = true := by
   decide +kernel
 
-theorem modelled_nonempty : 5 = modelled.length := by decide
+theorem modelled_nonempty : 8 = modelled.length := by decide
 
 end I3.Props.C19
